@@ -3,7 +3,7 @@
    such a key), monotonicity of the stores, and the derived statements of C04
    and C05. *)
 From Coq Require Import ZArith List Bool Lia Permutation.
-From Tally Require Import Base.Obs Model.KeyGen Model.Deriv Proof.ParamsOkKey Proof.KeyGenP.
+From Tally Require Import Base.ObsCore Model.KeyGen Model.Deriv Proof.ParamsOkKey Proof.KeyGenP.
 Import ListNotations.
 Open Scope Z_scope.
 
